@@ -44,6 +44,9 @@ pub enum Case {
         #[serde(with = "crate::util::u128s")]
         y0: u128,
         blocks: Vec<Block>,
+        /// how often the block list is run through (busy markets: several hundred snapshots inside one window)
+        #[serde(default)]
+        cycles: u16,
     },
     Feed {
         rounds: Vec<Round>,
@@ -87,7 +90,11 @@ fn interval_from(knob: u16, now: u64, hist: &[(u64, u128)]) -> u64 {
     }
 }
 
-fn vamm_case(decimals: u8, x0: u128, y0: u128, blocks: &[Block], ctx: &Ctx, out: &mut Outcome) {
+fn vamm_case(decimals: u8, x0: u128, y0: u128, blocks_once: &[Block], cycles: u16, ctx: &Ctx, out: &mut Outcome) {
+    let blocks: Vec<Block> = (0..cycles.max(1)).flat_map(|_| blocks_once.iter().cloned()).collect();
+    if cycles > 1 {
+        out.count("vamm.long_histories");
+    }
     let mut sim = match VSim::new(decimals, x0, y0, 0, 0, 0) {
         Ok(s) => s,
         Err(e) => {
@@ -373,7 +380,11 @@ impl Property for C18 {
     }
     fn strategy(&self, tier: Tier) -> BoxedStrategy<Case> {
         let nb = tier.pick(12, 30);
-        let vamm = (reserve_strategy(), proptest::collection::vec(block_strategy(), 1..=nb)).prop_map(|((decimals, x0, y0), blocks)| Case::Vamm { decimals, x0, y0, blocks });
+        // one case in 300 is a busy market: the block list is cycled until it holds about 300 blocks
+        let vamm = (reserve_strategy(), proptest::collection::vec(block_strategy(), 1..=nb), 0u16..300).prop_map(|((decimals, x0, y0), blocks, c)| {
+            let cycles = if c == 299 { (300 / blocks.len().max(1)) as u16 + 1 } else { 0 };
+            Case::Vamm { decimals, x0, y0, blocks, cycles }
+        });
         let feedc = (
             proptest::collection::vec((0u8..8, any::<u64>(), 0u8..4, 0u8..3).prop_map(|(dt, price, lag, b)| Round { dt, price: price % 1_000_000_000_000, batch: b == 0, lag }), 1..=10),
             0u8..8,
@@ -387,7 +398,7 @@ impl Property for C18 {
         tier.pick(600_000, 6_000_000)
     }
     fn rule(&self) -> String {
-        "vAMM flavour (3/5 of the cases): generated reserves and block schedules (gaps 0 s .. 11 days, so that histories and query intervals longer than a week occur; block times with a sub-second fraction) with 0-4 swaps per block through the real entry points; the harness records (block time, block-final spot) for every block with an accepted swap plus the creation entry; the owner's actions of C01 (market closed and re-opened, engine re-pointed, fee update) occur before 7-8% of the swaps; after each block TwapPrice{i} is queried for intervals shorter / equal / longer than the history, aligned with and just inside snapshot lifetimes: the answer must lie between the lowest and highest recorded price in effect in [now-i, now] (whole history if shorter), equal spot when the price did not change in the window, and agree (+-1) with the reference time-weighted mean over the block-final prices. Feed flavour: generated round sequences on the real price feed, submitted singly and in AppendMultiplePrice batches (non-decreasing timestamps incl. repeats, one round in four repeating the previous price, not in the future), in 7 of 8 cases with rounds of a second pair of the same feed submitted before or in between; GetTwapPrice within the bounds of the submissions overlapping the window, GetPrice = last submission, GetPreviousPrice{n} for n < rounds answers with exactly the (rounds-n)-th submission, and any successful answer for larger n would have to be a submitted round. Queries that error or panic give no value and are counted, not judged. Non-trivial: vAMM: a window starting strictly inside a snapshot's lifetime with >= 3 distinct prices in the history and a block with >= 2 swaps; feed: >= 3 submissions and a window overlapping different prices. Distinct by digest of the case.".into()
+        "vAMM flavour (3/5 of the cases): generated reserves and block schedules (gaps 0 s .. 11 days, so that histories and query intervals longer than a week occur; block times with a sub-second fraction) with 0-4 swaps per block through the real entry points (one case in 300 cycles its block list up to about 300 blocks: a busy market with hundreds of snapshots inside one window); the harness records (block time, block-final spot) for every block with an accepted swap plus the creation entry; the owner's actions of C01 (market closed and re-opened, engine re-pointed, fee update) occur before 7-8% of the swaps; after each block TwapPrice{i} is queried for intervals shorter / equal / longer than the history, aligned with and just inside snapshot lifetimes: the answer must lie between the lowest and highest recorded price in effect in [now-i, now] (whole history if shorter), equal spot when the price did not change in the window, and agree (+-1) with the reference time-weighted mean over the block-final prices. Feed flavour: generated round sequences on the real price feed, submitted singly and in AppendMultiplePrice batches (non-decreasing timestamps incl. repeats, one round in four repeating the previous price, not in the future), in 7 of 8 cases with rounds of a second pair of the same feed submitted before or in between; GetTwapPrice within the bounds of the submissions overlapping the window, GetPrice = last submission, GetPreviousPrice{n} for n < rounds answers with exactly the (rounds-n)-th submission, and any successful answer for larger n would have to be a submitted round. Queries that error or panic give no value and are counted, not judged. Non-trivial: vAMM: a window starting strictly inside a snapshot's lifetime with >= 3 distinct prices in the history and a block with >= 2 swaps; feed: >= 3 submissions and a window overlapping different prices. Distinct by digest of the case.".into()
     }
     fn assumptions(&self) -> Vec<String> {
         vec!["mock dependencies stand in for the chain; block times strictly increase".into()]
@@ -395,7 +406,7 @@ impl Property for C18 {
     fn run_case(&self, c: &Case, ctx: &Ctx) -> Outcome {
         let mut out = Outcome::default();
         match c {
-            Case::Vamm { decimals, x0, y0, blocks } => vamm_case(*decimals, *x0, *y0, blocks, ctx, &mut out),
+            Case::Vamm { decimals, x0, y0, blocks, cycles } => vamm_case(*decimals, *x0, *y0, blocks, *cycles, ctx, &mut out),
             Case::Feed { rounds, now_lag, intervals, other_pair } => feed_case(rounds, *now_lag, intervals, *other_pair, ctx, &mut out),
         }
         out
